@@ -49,6 +49,8 @@ func cmdCheck(args []string) int {
 			e.workers, _ = strconv.Atoi(args[i])
 		case "-noaccel":
 			e.noAccel = true
+		case "-noifconv":
+			e.noIfConv = true
 		}
 	}
 	if t := os.Getenv("VERIF_TIER"); t == "quick" || t == "thorough" {
